@@ -7,9 +7,37 @@
 package gozxing
 
 // ---------------------------------------------------------------- BitArray: abstract view
+//
+// bit(b,k) is the naive boolean-slice view of a BitArray; capBA is the number of bit positions
+// physically present. wfBA is the representation invariant, padBA says that the positions
+// beyond size hold zero (AppendBit relies on it).
 
 //@ spec func bit(b *BitArray, k int) bool = (b.bits[k/32] >> uint(k%32)) & 1 == 1
+//@ spec func capBA(b *BitArray) int = len(b.bits)*32
 //@ pred wfBA(b *BitArray) = b.size >= 0 && len(b.bits) <= 1<<26 && b.size <= len(b.bits)*32
+//@ pred padBA(b *BitArray) = forall k int :: b.size <= k && k < len(b.bits)*32 ==> !bit(b, k)
+
+//@ func NewBitArray(size int) (r *BitArray)
+//@   property C16
+//@   mode bv
+//@   requires 0 <= size && size <= 1<<30
+//@   ensures r != nil && fresh(r) && wfBA(r) && r.size == size && len(r.bits) == (size+31)/32
+//@   ensures forall k int :: 0 <= k && k < capBA(r) ==> !bit(r, k)
+//@   modifies nothing
+
+//@ func NewEmptyBitArray() (r *BitArray)
+//@   property C16
+//@   mode bv
+//@   ensures r != nil && fresh(r) && wfBA(r) && r.size == 0 && len(r.bits) == 1
+//@   ensures forall k int :: 0 <= k && k < capBA(r) ==> !bit(r, k)
+//@   modifies nothing
+
+//@ func (b *BitArray) GetSizeInBytes() (r int)
+//@   property C16
+//@   mode bv
+//@   requires wfBA(b)
+//@   ensures r == (b.size + 7) / 8
+//@   modifies nothing
 
 //@ func (b *BitArray) Get(i int) (r bool)
 //@   property C16 C20
@@ -17,3 +45,195 @@ package gozxing
 //@   requires wfBA(b) && 0 <= i && i < b.size
 //@   ensures r == bit(b, i)
 //@   modifies nothing
+
+//@ func (b *BitArray) Set(i int)
+//@   property C16
+//@   mode bv
+//@   requires wfBA(b) && 0 <= i && i < b.size
+//@   ensures forall k int :: 0 <= k && k < capBA(b) ==> bit(b, k) == (old(bit(b, k)) || k == i)
+//@   modifies b.bits[*]
+
+//@ func (b *BitArray) Flip(i int)
+//@   property C16
+//@   mode bv
+//@   requires wfBA(b) && 0 <= i && i < b.size
+//@   ensures forall k int :: 0 <= k && k < capBA(b) ==> bit(b, k) == (old(bit(b, k)) != (k == i))
+//@   modifies b.bits[*]
+
+//@ func (b *BitArray) SetBulk(i int, newBits uint32)
+//@   property C16
+//@   mode bv
+//@   requires wfBA(b) && 0 <= i && i < capBA(b)
+//@   ensures forall k int :: 0 <= k && k < capBA(b) ==> bit(b, k) == (k/32 == i/32 ? (newBits >> uint(k%32)) & 1 == 1 : old(bit(b, k)))
+//@   modifies b.bits[*]
+
+//@ func (b *BitArray) GetNextSet(from int) (r int)
+//@   property C16
+//@   mode bv
+//@   requires wfBA(b) && 0 <= from
+//@   ensures from >= b.size ==> r == b.size
+//@   ensures from < b.size ==> from <= r && r <= b.size
+//@   ensures forall k int :: from <= k && k < r ==> !bit(b, k)
+//@   ensures r < b.size ==> bit(b, r)
+//@   modifies nothing
+//@   loop 0: invariant from < b.size && from/32 <= bitsOffset && bitsOffset < len(b.bits)
+//@   loop 0: invariant forall k int :: from <= k && k < bitsOffset*32 ==> !bit(b, k)
+//@   loop 0: invariant currentBits == (bitsOffset == from/32 ? b.bits[bitsOffset] & (0xFFFFFFFF << uint(from%32)) : b.bits[bitsOffset])
+//@   loop 0: decreases len(b.bits) - bitsOffset
+
+//@ func (b *BitArray) GetNextUnset(from int) (r int)
+//@   property C16
+//@   mode bv
+//@   requires wfBA(b) && 0 <= from
+//@   ensures from >= b.size ==> r == b.size
+//@   ensures from < b.size ==> from <= r && r <= b.size
+//@   ensures forall k int :: from <= k && k < r ==> bit(b, k)
+//@   ensures r < b.size ==> !bit(b, r)
+//@   modifies nothing
+//@   loop 0: invariant from < b.size && from/32 <= bitsOffset && bitsOffset < len(b.bits)
+//@   loop 0: invariant forall k int :: from <= k && k < bitsOffset*32 ==> bit(b, k)
+//@   loop 0: invariant currentBits == (bitsOffset == from/32 ? (^b.bits[bitsOffset]) & (0xFFFFFFFF << uint(from%32)) : ^b.bits[bitsOffset])
+//@   loop 0: decreases len(b.bits) - bitsOffset
+
+//@ func (b *BitArray) ensureCapacity(size int)
+//@   property C16
+//@   mode bv
+//@   requires wfBA(b) && 0 <= size && size <= 1<<31
+//@   ensures wfBA(b) && b.size == old(b.size) && size <= capBA(b) && capBA(b) >= old(capBA(b))
+//@   ensures b.bits == old(b.bits) || fresh(b.bits)
+//@   ensures forall k int :: 0 <= k && k < old(capBA(b)) ==> bit(b, k) == old(bit(b, k))
+//@   ensures forall k int :: old(capBA(b)) <= k && k < capBA(b) ==> !bit(b, k)
+//@   modifies b.bits
+
+//@ func (b *BitArray) SetRange(start int, end int) (e error)
+//@   property C16
+//@   mode bv
+//@   requires wfBA(b)
+//@   let bad = end < start || start < 0 || end > b.size
+//@   ensures bad ==> e != nil
+//@   ensures bad ==> forall k int :: 0 <= k && k < capBA(b) ==> bit(b, k) == old(bit(b, k))
+//@   ensures !bad ==> e == nil
+//@   ensures !bad ==> forall k int :: 0 <= k && k < capBA(b) ==> bit(b, k) == (old(bit(b, k)) || (start <= k && k < end))
+//@   modifies b.bits[*]
+//@   loop 0: invariant 0 <= start && start <= end && end < b.size && old(end) == end + 1 && start == old(start)
+//@   loop 0: invariant firstInt == start/32 && lastInt == end/32 && firstInt <= i && i <= lastInt + 1
+//@   loop 0: invariant forall k int :: 0 <= k && k < capBA(b) ==> bit(b, k) == (old(bit(b, k)) || (start <= k && k <= end && k < i*32))
+//@   loop 0: decreases lastInt + 1 - i
+
+//@ func (b *BitArray) Clear()
+//@   property C16
+//@   mode bv
+//@   requires wfBA(b)
+//@   ensures forall k int :: 0 <= k && k < capBA(b) ==> !bit(b, k)
+//@   modifies b.bits[*]
+//@   loop 0: invariant -1 <= rangeindex && rangeindex < len(b.bits) || len(b.bits) == 0 && rangeindex == -1
+//@   loop 0: invariant forall k int :: 0 <= k && k < (rangeindex+1)*32 && k < capBA(b) ==> !bit(b, k)
+//@   loop 0: decreases len(b.bits) - rangeindex
+
+// rmask(start,end,w): the bits of word w that lie in [start,end), start < end
+//@ spec func rmask(start int, end int, w int) uint32 = uint32((2 << uint(w == (end-1)/32 ? (end-1)%32 : 31)) - (1 << uint(w == start/32 ? start%32 : 0)))
+//@ lemma rmaskBits(start int, end int, w int, j int)
+//@   property C16
+//@   mode bv
+//@   requires 0 <= start && start < end && end <= 1<<31 && start/32 <= w && w <= (end-1)/32 && 0 <= j && j < 32
+//@   ensures ((rmask(start, end, w) >> uint(j)) & 1 == 1) == (start <= w*32+j && w*32+j < end)
+
+//@ func (b *BitArray) IsRange(start int, end int, value bool) (r bool, e error)
+//@   property C16
+//@   mode bv
+//@   requires wfBA(b)
+//@   let bad = end < start || start < 0 || end > b.size
+//@   ensures bad ==> e != nil && !r
+//@   ensures !bad ==> e == nil
+//@   ensures !bad && r ==> forall k int :: start <= k && k < end ==> bit(b, k) == value
+//@   ensures !bad && !r ==> exists w int :: start/32 <= w && w <= (end-1)/32 && (b.bits[w] & rmask(start, end, w)) != (value ? rmask(start, end, w) : 0)
+//@   modifies nothing
+//@   loop 0: invariant 0 <= start && start <= end && end < b.size && old(end) == end + 1 && start == old(start)
+//@   loop 0: invariant firstInt == start/32 && lastInt == end/32 && firstInt <= i && i <= lastInt + 1
+//@   loop 0: invariant forall k int :: start <= k && k <= end && k < i*32 ==> bit(b, k) == value
+//@   loop 0: decreases lastInt + 1 - i
+
+//@ func (b *BitArray) AppendBit(bit bool)
+//@   property C16
+//@   mode bv
+//@   requires wfBA(b) && padBA(b) && b.size < 1<<30
+//@   ensures wfBA(b) && padBA(b) && b.size == old(b.size) + 1
+//@   ensures forall k int :: 0 <= k && k < old(b.size) ==> bit(b, k) == old(bit(b, k))
+//@   ensures bit(b, old(b.size)) == bit
+//@   ensures b.bits == old(b.bits) || fresh(b.bits)
+//@   modifies b.bits, b.bits[*], b.size
+
+//@ func (b *BitArray) AppendBits(value int, numBits int) (e error)
+//@   property C16
+//@   mode bv
+//@   requires wfBA(b) && padBA(b) && b.size < 1<<30
+//@   let bad = numBits < 0 || numBits > 32
+//@   ensures bad ==> e != nil && b.size == old(b.size)
+//@   ensures bad ==> forall k int :: 0 <= k && k < b.size ==> bit(b, k) == old(bit(b, k))
+//@   ensures !bad ==> e == nil && wfBA(b) && padBA(b) && b.size == old(b.size) + numBits
+//@   ensures !bad ==> forall k int :: 0 <= k && k < old(b.size) ==> bit(b, k) == old(bit(b, k))
+//@   ensures !bad ==> forall j int :: 0 <= j && j < numBits ==> bit(b, old(b.size) + j) == ((value >> uint(numBits-1-j)) & 1 == 1)
+//@   modifies b.bits, b.bits[*], b.size
+//@   loop 0: invariant 0 <= numBits && numBits <= 32 && -1 <= numBitsLeft && numBitsLeft < numBits && nextSize == old(b.size) + (numBits - 1 - numBitsLeft)
+//@   loop 0: invariant wfBA(b) && b.size == old(b.size) && old(b.size) + numBits <= capBA(b)
+//@   loop 0: invariant forall k int :: nextSize <= k && k < capBA(b) ==> !bit(b, k)
+//@   loop 0: invariant forall k int :: 0 <= k && k < old(b.size) ==> bit(b, k) == old(bit(b, k))
+//@   loop 0: invariant forall j int :: 0 <= j && j < numBits - 1 - numBitsLeft ==> bit(b, old(b.size) + j) == ((value >> uint(numBits-1-j)) & 1 == 1)
+//@   loop 0: decreases numBitsLeft + 1
+
+//@ func (b *BitArray) AppendBitArray(other *BitArray)
+//@   property C16
+//@   mode bv
+//@   requires other != nil && other != b && wfBA(b) && padBA(b) && wfBA(other) && b.size < 1<<29 && other.size < 1<<29 && arr(b.bits) != arr(other.bits)
+//@   ensures wfBA(b) && padBA(b) && b.size == old(b.size) + other.size
+//@   ensures forall k int :: 0 <= k && k < old(b.size) ==> bit(b, k) == old(bit(b, k))
+//@   loop 0: invariant 0 <= i && i <= otherSize && otherSize == other.size && wfBA(other) && other.size == old(other.size) && other.bits == old(other.bits)
+//@   loop 0: invariant wfBA(b) && padBA(b) && b.size == old(b.size) + i && arr(b.bits) != arr(other.bits) && (b.bits == old(b.bits) || fresh(b.bits))
+//@   loop 0: invariant forall k int :: 0 <= k && k < old(b.size) ==> bit(b, k) == old(bit(b, k))
+//@   loop 0: decreases otherSize - i
+
+//@ func (b *BitArray) Xor(other *BitArray) (e error)
+//@   property C16
+//@   mode bv
+//@   requires other != nil && b != other && wfBA(b) && wfBA(other) && padBA(b) && padBA(other) && arr(b.bits) != arr(other.bits)
+//@   ensures b.size != other.size ==> e != nil
+//@   ensures b.size == other.size ==> e == nil
+//@   ensures b.size == other.size ==> forall k int :: 0 <= k && k < b.size ==> bit(b, k) == (old(bit(b, k)) != old(bit(other, k)))
+//@   ensures wfBA(b) && padBA(b)
+//@   modifies b.bits[*]
+//@   loop 0: invariant 0 <= i && i <= len(b.bits) && b.size == other.size && wfBA(b) && wfBA(other) && padBA(other)
+//@   loop 0: invariant forall k int :: 0 <= k && k < capBA(other) ==> bit(other, k) == old(bit(other, k))
+//@   loop 0: invariant forall k int :: 0 <= k && k < capBA(b) ==> bit(b, k) == (k < i*32 && k < capBA(other) ? old(bit(b, k)) != old(bit(other, k)) : old(bit(b, k)))
+//@   loop 0: decreases len(b.bits) - i
+
+//@ func (b *BitArray) ToBytes(bitOffset int, array []byte, offset int, numBytes int)
+//@   property C16
+//@   mode bv
+//@   requires wfBA(b) && 0 <= bitOffset && bitOffset <= b.size && 0 <= offset && offset <= len(array) && 0 <= numBytes && numBytes <= 1<<26 && bitOffset + 8*numBytes <= b.size && offset + numBytes <= len(array)
+//@   ensures forall i int, j int :: 0 <= i && i < numBytes && 0 <= j && j < 8 ==> ((array[offset+i] >> uint(7-j)) & 1 == 1) == bit(b, bitOffset + 8*i + j)
+//@   ensures forall i int :: 0 <= i && i < len(array) && (i < offset || i >= offset + numBytes) ==> array[i] == old(array[i])
+//@   modifies array[*]
+//@   loop 0: invariant 0 <= i && i <= numBytes && bitOffset == old(bitOffset) + 8*i
+//@   loop 0: invariant forall i2 int, j int :: 0 <= i2 && i2 < i && 0 <= j && j < 8 ==> ((array[offset+i2] >> uint(7-j)) & 1 == 1) == bit(b, old(bitOffset) + 8*i2 + j)
+//@   loop 0: invariant forall i2 int :: 0 <= i2 && i2 < len(array) && (i2 < offset || i2 >= offset + i) ==> array[i2] == old(array[i2])
+//@   loop 0: decreases numBytes - i
+//@   loop 1: invariant 0 <= i && i < numBytes && 0 <= j && j <= 8 && bitOffset == old(bitOffset) + 8*i + j
+//@   loop 1: invariant forall j2 int :: 0 <= j2 && j2 < 8 ==> ((theByte >> uint(7-j2)) & 1 == 1) == (j2 < j && bit(b, old(bitOffset) + 8*i + j2))
+//@   loop 1: invariant forall i2 int, j2 int :: 0 <= i2 && i2 < i && 0 <= j2 && j2 < 8 ==> ((array[offset+i2] >> uint(7-j2)) & 1 == 1) == bit(b, old(bitOffset) + 8*i2 + j2)
+//@   loop 1: invariant forall i2 int :: 0 <= i2 && i2 < len(array) && (i2 < offset || i2 >= offset + i) ==> array[i2] == old(array[i2])
+//@   loop 1: decreases 8 - j
+
+//@ func (b *BitArray) Reverse()
+//@   property C16
+//@   mode bv
+//@   requires wfBA(b)
+//@   ensures wfBA(b) && padBA(b) && b.size == old(b.size)
+//@   ensures forall k int :: 0 <= k && k < b.size ==> bit(b, k) == old(bit(b, b.size - 1 - k))
+//@   modifies b.bits
+
+//@ func (b *BitArray) String() (s string)
+//@   property C16
+//@   mode bv
+//@   requires wfBA(b) && b.size <= 1<<26
+//@   modifies nothing
+//@   loop 0: invariant fresh(result)
